@@ -570,7 +570,23 @@ def r11i(ctx):
         ctx.obs.append(o)
 
 
+def r11j(ctx):
+    repo = ctx.repo
+    ctx.rule("R11j", "the writer's per-antenna loops treat every antenna alike: no `continue` / `break` that leaves an antenna's rows allocated and indexed but unwritten", expected=3, kind="N")
+    for m in ("_write_waveforms", "_write_noise_data", "_write_ray_data", "_write_trigger"):
+        fn = repo.member(W, m)
+        loops = [n for n in ast.walk(fn) if isinstance(n, ast.For) and "self._detector" in u(n.iter)]
+        for lp in loops:
+            skips = [n for b in lp.body for n in ast.walk(b) if isinstance(n, (ast.Continue, ast.Break))]
+            # a skip inside an inner loop over something else (keys of a table) belongs to that loop
+            inner = {id(x) for b in lp.body for l2 in ast.walk(b) if isinstance(l2, (ast.For, ast.While)) for b2 in l2.body for x in ast.walk(b2)}
+            skips = [x for x in skips if id(x) not in inner]
+            ctx.check(not skips, "R11j", f"{W}.{m}", "every antenna of the detector is written in the per-antenna loop", "; ".join(f"line {x.lineno}: {type(x).__name__.lower()}" for x in skips),
+                      key_detail="antenna skipped", loc=ctx.loc("pyrex.io", lp))
+
+
 def run(ctx):
+    ctx.guard(r11j)
     ctx.guard(r11i)
     ctx.guard(r11h)
     ctx.guard(r11a)
@@ -583,6 +599,8 @@ def run(ctx):
 
 SELFTEST = {
     "faults": [
+        {"name": "waveforms of antennas without a hit are not written", "file": "pyrex/io.py", "old": "            for j, wave in enumerate(ant.all_waveforms):\n                data[start_index+j, i] = np.array([wave.times, wave.values])",
+         "new": "            if not ant.is_hit:\n                continue\n            for j, wave in enumerate(ant.all_waveforms):\n                data[start_index+j, i] = np.array([wave.times, wave.values])", "rule": "R11j"},
         {"name": "preset skipped when the row already exists", "file": "pyrex/io.py", "old": "        for key, count in self._counters.items():\n            if key==\"indices\":",
          "new": "        if self._file[self._data_locs['indices']].shape[0]>self._counters['indices']:\n            return\n        for key, count in self._counters.items():\n            if key==\"indices\":", "rule": "R11c"},
         {"name": "antenna flags written straight into column i (no key search)", "file": "pyrex/io.py",
